@@ -35,6 +35,14 @@ P = {
   "Static decision for every byte string: accept sets (propositional normal forms over the atoms of a strict-DER reader specification) of ParseASN1Signature (one SEQUENCE, nothing trailing, two minimal non-negative INTEGERs, nothing trailing inside, each a canonical non-zero scalar of 1..32 bytes; bytesToCanonicalScalar validated for every length), of the compact parsers (64/65 bytes, canonical non-zero halves; values d[0:32], d[32:64], d[64]) and of ParseASN1PublicKey (SEQUENCE{SEQUENCE{ecPublicKey, secp256k1}, BIT STRING with no unused bits holding a valid SEC 1 key}, nothing trailing at any level; this rule found the genuine unused-bits defect, now fixed); the BIP-66 predicate extracted from the CFG is equivalent to the BIP's 14-rule reference predicate (18 atoms, every consistent valuation); every index / slice / slice-to-array conversion in the parsers is proven in bounds from the dominating checks by linear entailment (Fourier-Motzkin; 33 obligations in the BIP-66 predicate); builders emit exactly the structures the parsers accept (DER terms); no panic reachable in any parser.",
   "Trusted: x/crypto v0.11.0 cryptobyte implements strict DER as documented (the reader / builder are specified, not analysed); C02, C06, C10; go/ssa; the checker. Panics inside the standard library are out of scope.",
   "abstract interpretation over go/ssa against a DER reader/builder specification; accept-set formulas compared as normal forms; linear-constraint (Fourier-Motzkin) bounds proofs"),
+ "C13": ("other",
+  "Static decision for every key, message and signature of every length: the result of SchnorrPublicKey.Verify, extracted by abstract interpretation as a propositional formula over term atoms, is equivalent to the BIP-340 Verify predicate (len = 64, r < p, s < n, R = s*G - e*P not the identity, y(R) even, Bytes(x(R)) = r, e = int(tagged SHA-256 of r || px || msg) mod n; s = 0 not rejected); the tagged hash equals SHA256(SHA256(tag)||SHA256(tag)||inputs) for 0..3 inputs and the three tag constants are the BIP's; NewSchnorrPublicKey accepts exactly 32-byte strings x with 0x02||x a valid compressed point (C06) and stores that point with a fresh copy of the bytes; objects of the two Schnorr key types are created only in the three constructors, each establishing the type invariant (even-y non-identity point, xBytes = Bytes(x(point)), d*G = point, nothing shared with the source key); slice conversions proven in bounds.",
+  "Trusted: C16, C06, C01, C02, C10; crypto/sha256; go/ssa; the checker.",
+  "abstract interpretation over go/ssa with SHA-256 transcript terms against lower-layer specifications; accept-set formulas compared as normal forms"),
+ "C14": ("other",
+  "Static decision for every key, aux value and message of every length: the bytes returned by signSchnorr equal, as terms over SHA-256 transcripts / scalar ring / point module and for both parities of y(R), the BIP-340 Sign algorithm (t = bytes(d) xor H_aux(a); rand = H_nonce(t||px||m); k' = int(rand) mod n, error if 0; R = k'G; k = +-k' by parity; e = int(H_challenge(x(R)||px||m)) mod n; sig = x(R) || (k + e*d)); a signature is returned exactly when k' != 0 and the mandatory self-check (= BIP-340 verification predicate with R = (s - e*d)G) of the produced bytes succeeds; Sign reads exactly 32 aux bytes with io.ReadFull (nil reader replaced), aborting on error; key derivation from an ECDSA key / point negates scalar and point together by the parity of y(d'G) and stores x of that point (rule shared with C13-4).",
+  "Byte-for-byte equality with the BIP is decided relative to the abstract operations (SHA-256, k*G, scalar ring), i.e. modulo C01/C02/C05/C06; no test vector is run. Trusted: go/ssa, the checker.",
+  "abstract interpretation over go/ssa with SHA-256 transcript terms; term equality with the BIP-340 algorithm; accept-set formulas as normal forms"),
  "C16": ("other",
   "DoubleScalarMultBasepointVartime = u1*G + u2*P and MultiScalarMult(Vartime) = sum s_i*P_i decided by abstract interpretation in the Z/n-module domain for list lengths 0..3 with every receiver-among-inputs aliasing, mismatched lengths panic, length 1 delegates to the GLV multiply; a loop-shape rule (loops run j = 0..l-1 touching entry j only) extends the unrolled instances to every length.",
   "Trusted: C03-C05; the extension from lengths 0..3 to all lengths rests on the loop-shape rule; go/ssa; the checker.",
@@ -65,7 +73,7 @@ P = {
   "abstract interpretation over go/ssa against lower-layer specifications; accept-set formulas compared as propositional normal forms"),
 }
 
-CLAIMED = ["C01", "C02", "C03", "C04", "C05", "C06", "C07", "C08", "C09", "C10", "C11", "C12", "C16", "C19"]
+CLAIMED = ["C01", "C02", "C03", "C04", "C05", "C06", "C07", "C08", "C09", "C10", "C11", "C12", "C13", "C14", "C16", "C19"]
 
 REASON_PENDING = "check under construction in this session (see DESIGN.md section 2); not yet claimed"
 
